@@ -44,10 +44,11 @@ class Steps:
                     where=self.fn.file_line(blocks[0]) if blocks else "%s:%d" % (self.fn.span["file"], self.fn.span["l0"]), nontrivial=False)
         return blocks
 
-    def must_pass(self, name):
-        """every Ok-path of the function passes through a block of step `name`."""
+    def must_pass(self, name, exempt=()):
+        """every Ok-path of the function passes through a block of step `name` (paths through the `exempt` blocks,
+        which the caller has shown to be a trivial shortcut, are not counted)."""
         blocks = self.steps.get(name, [])
-        path = self.fn.ok_reachable(removed=blocks)
+        path = self.fn.ok_reachable(removed=list(blocks) + list(exempt))
         ok = path is None and bool(blocks)
         self.ctx.ob(self.rule, "on-every-ok-path/%s/%s" % (short(self.fn.path), name), ok,
                     "step '%s' %s on every path to a successful return" % (name, "lies" if ok else "does NOT lie"),
